@@ -1,0 +1,54 @@
+//! Pause points at phase boundaries. Compiled only with the `verif` feature; does nothing unless the
+//! environment variable `WILD_VERIF_PAUSE` is set.
+//!
+//! `WILD_VERIF_PAUSE=<point>:<path>`
+//!
+//! When the linker reaches `pause_point("<point>")` it creates the file `<path>.reached` (so that the
+//! test driver knows the link is parked at a known instant) and then blocks until `<path>` exists.
+//! If `<path>` is a FIFO, it blocks until a writer opens it. The driver uses the window to modify an
+//! input file and then releases the link by creating `<path>`.
+//!
+//! Point names are the same as the fault points of `verif_api::fault` that lie between opening the
+//! inputs and `verify_inputs_unchanged`: `after-inputs-loaded`, `after-symbol-resolution`,
+//! `after-layout`, `after-write`.
+
+pub const ENV: &str = "WILD_VERIF_PAUSE";
+
+pub const POINTS: &[&str] = &[
+    "after-inputs-loaded",
+    "after-symbol-resolution",
+    "after-layout",
+    "after-write",
+];
+
+/// Blocks at `point` if `WILD_VERIF_PAUSE` names it. Gives up (and continues) after 60 seconds so that
+/// a broken driver cannot hang a link forever.
+pub fn pause_point(point: &str) {
+    let Ok(spec) = std::env::var(ENV) else {
+        return;
+    };
+    let Some((p, path)) = spec.split_once(':') else {
+        return;
+    };
+    if p != point {
+        return;
+    }
+    let path = std::path::Path::new(path);
+    let mut reached = path.as_os_str().to_owned();
+    reached.push(".reached");
+    let _ = std::fs::write(&reached, point);
+
+    let is_fifo = {
+        use std::os::unix::fs::FileTypeExt as _;
+        std::fs::metadata(path).is_ok_and(|m| m.file_type().is_fifo())
+    };
+    if is_fifo {
+        // Opening a FIFO for reading blocks until a writer opens it.
+        let _ = std::fs::read(path);
+        return;
+    }
+    let start = std::time::Instant::now();
+    while !path.exists() && start.elapsed() < std::time::Duration::from_secs(60) {
+        std::thread::sleep(std::time::Duration::from_millis(2));
+    }
+}
